@@ -75,10 +75,21 @@ class Lock:
 
 # ----------------------------------------------------------------------------- Coq
 
-def regen_consts():
+def regen_consts(pid=None):
+    """regenerate coq/Gen/Consts.v from the checked tree.  The translator works section by section: a section whose source
+    construct it no longer finds emits nothing (the Coq files that use those constants then stop compiling) and is a broken
+    tie for the properties it serves - not for the others."""
     rc, out = sh([sys.executable, os.path.join(ROOT, "tools", "extract_consts.py")], timeout=60)
     if rc != 0:
         raise TieBroken("constants translator: " + out.strip())
+    try:
+        import json
+        failed = json.load(open(os.path.join(COQ, "Gen", "consts_status.json")))
+    except (OSError, ValueError):
+        failed = {}
+    mine = ["%s: %s" % (t, v["error"]) for t, v in failed.items() if pid is None or pid in v.get("props", [])]
+    if mine:
+        raise TieBroken("constants translator: extract_consts: " + "; ".join(mine))
 
 
 def coq_makefile():
